@@ -53,7 +53,7 @@ fn main() {
         let srcty = if d.utf8 { "str" } else { "[u8]" };
         let _ = writeln!(
             out,
-            "fn run_{n}(src: &{srcty}, partial: bool, with_extras: bool, start_at: usize, max_items: usize, extras_in: u64) -> LexOut {{ run_generic::<{ty}>(src, partial, with_extras, start_at, max_items, extras_in) }}\n",
+            "fn run_{n}(src: &{srcty}, partial: bool, with_extras: bool, start_at: usize, max_items: usize, extras_in: u64, ops: u8) -> LexOut {{ run_generic::<{ty}>(src, partial, with_extras, start_at, max_items, extras_in, ops) }}\n",
             n = d.name
         );
         let _ = writeln!(infos, "    DefInfo {{ name: {:?}, utf8: {}, stateful: {}, source: {:?}, run: Run::{}(run_{}), pats: &[", d.name, d.utf8, is_stateful(d), src, if d.utf8 { "Str" } else { "Bytes" }, d.name);
